@@ -290,6 +290,36 @@ def m_is_ok(ex, site, a): return deref(ex, a[0]).variant == 0
 def m_is_err(ex, site, a): return deref(ex, a[0]).variant == 1
 
 
+@model('Option::xor')
+def m_opt_xor(ex, site, a):
+    x, y = a[0], a[1]
+    if x.variant == 1 and y.variant == 0: return x
+    if x.variant == 0 and y.variant == 1: return y
+    return none()
+
+
+@model('Option::flatten')
+def m_opt_flatten(ex, site, a): return a[0].fields[0] if a[0].variant == 1 else none()
+
+
+@model('Option::inspect', 'Result::inspect', 'Result::inspect_err')
+def m_inspect(ex, site, a):
+    v = a[0]
+    hit = (v.variant == 1) if v.ty == 'Option' else (v.variant == (1 if site.method == 'inspect_err' else 0))
+    if hit: ex.call_value(a[1], [Ptr(Cell(v.fields[0]))])
+    return v
+
+
+@model('Result::and', 'Option::and')
+def m_and(ex, site, a):
+    okv = 1 if a[0].ty == 'Option' else 0
+    return a[1] if a[0].variant == okv else a[0]
+
+
+@model('Result::or')
+def m_res_or(ex, site, a): return a[0] if a[0].variant == 0 else a[1]
+
+
 @model('Option::as_ref', 'Option::as_mut', 'Result::as_ref', 'Result::as_mut')
 def m_as_ref(ex, site, a):
     p = a[0]; o = ex.load(p)
